@@ -35,3 +35,28 @@ RULE = ("explicit-state search over all orders of external events (arrivals, I/O
 ASSUMPTIONS = ["asyncio FIFO ready queue is kept; nondeterminism = when external events arrive relative to loop iterations",
                "peers answer every request with exactly one well-framed response (token echo)",
                "simulated backend follows the NetworkBackend contract as the three real backends do (DESIGN.md 2.4)"]
+
+
+def extra(tier, seed, workers, only):
+    """The synchronous pool: lost wake-ups between threads show as deadlocks of the controlled thread scheduler
+    (same harness as C08; only its deadlock / livelock verdicts are this property's)."""
+    if only:
+        return None, {}
+    import multiprocessing as mp
+    import os
+    from . import c08
+    scs = [(c08.S("h11", ["req:a:w", "req:a", "req:a"], max_connections=1, granularity="waiter-line"), 3),
+           (c08.S("h11", ["hold:a", "req:a"], max_connections=1, granularity="waiter-line"), 3),
+           (c08.S("h11", ["hold:a", "req:a", "req:a"], max_connections=1, granularity="sync"), 2),
+           (c08.S("h11", ["req:a", "req:b"], max_connections=1, granularity="pool-line"), 1 if tier == "quick" else 2)]
+    total = engine.Stats(bound=None)
+    with mp.get_context("fork").Pool(workers or min(16, os.cpu_count() or 1)) as pool:
+        for spec, bound in scs:
+            st = engine.explore(spec, bound=bound, merge=False, pool=pool, seed=seed, max_violations=50, max_execs=200000, max_seconds=90, recheck=0)
+            total.merge_from(st)
+    for v in total.violations:
+        for x in v["violations"]:
+            if x["oracle"] in ("C08.deadlock", "C08.livelock"):
+                x["oracle"] = "C07." + x["oracle"].split(".")[1] + "-sync"
+    return total, {"thread_world_scenarios": len(scs), "schedules": total.evaluations,
+                   "note": "states/transitions of these stateless runs count scheduling points and executed choice edges"}
